@@ -146,10 +146,8 @@ impl PartialEq for TraitBound {
 
                 first_args.iter().eq(&second_args)
             }
-            (_, syn::PathArguments::Parenthesized(_))
-            | (syn::PathArguments::Parenthesized(_), _) => {
-                unreachable!()
-            }
+            // NOTE: `Fn(A) -> B` has no associated bounds to ignore
+            (first_args, second_args) => Tokenized(first_args) == Tokenized(second_args),
         }
     }
 }
@@ -216,10 +214,7 @@ impl Ord for TraitBound {
 
                 first_args.iter().cmp(&second_args)
             }
-            (_, syn::PathArguments::Parenthesized(_))
-            | (syn::PathArguments::Parenthesized(_), _) => {
-                unreachable!()
-            }
+            (first_args, second_args) => Tokenized(first_args).cmp(&Tokenized(second_args)),
         }
     }
 }
@@ -240,7 +235,7 @@ impl core::hash::Hash for TraitBound {
                     _ => Tokenized(arg).hash(state),
                 })
             }
-            syn::PathArguments::Parenthesized(_) => unreachable!(),
+            args @ syn::PathArguments::Parenthesized(_) => Tokenized(args).hash(state),
         }
     }
 }
